@@ -47,6 +47,19 @@ def check_blocking_sockets(ctx, rule):
                     t = c.args[1] if len(c.args) > 1 else next((k.value for k in c.keywords if k.arg == 'timeout'), None)
                     if t is not None and not (isinstance(t, ast.Constant) and t.value is None):
                         bad = 'create_connection(timeout)'
+                if bad == 'settimeout' and f.cls is not None:
+                    # a timeout that only bounds one step (a connect) is fine if every way on from it passes `<same socket>.settimeout(None)`; the step
+                    # failing under the timeout raises, and the socket is then not used for the protocol at all
+                    g = ctx.an.cfg(f, f.cls)
+                    recv_txt = receiver(c)
+                    start = [n for n in g.nodes if n.stmt is not None and n.part == 'post' and any(x is c for x in n.calls())]
+                    reset = {n.id for n in g.nodes if n.stmt is not None and n.part == 'post' and any(
+                        last_attr(x) == 'settimeout' and receiver(x) == recv_txt and x.args and isinstance(x.args[0], ast.Constant) and x.args[0].value is None for x in n.calls())}
+                    from .cfg import is_flow
+                    leak = g.find_path(start, lambda n: n is g.exit or n.kind == 'return', edge_ok=lambda e: is_flow(e) and e.kind not in ('exc', 'reraise'),
+                                       node_ok=lambda n: n.id not in reset) if start else True
+                    if start and reset and leak is None:
+                        bad = None
                 if bad:
                     ctx.check(rule, f'{f.short}: no timeout is installed on a worker socket', False, f.short, f'socket-timeout:{bad}',
                               f'`{norm(c)}` in {f.short} leaves a timeout on a socket of the remote protocol: _recv_exact turns the TimeoutError of a quiet connection into '
